@@ -319,6 +319,14 @@ def seek_landing(F, R):
         from ..paths import describe as _d2
         tn = [(bb, _d2(nb, t['args'][0], depth=8, at=bb)) for bb, t in nb.calls() if (callee_path(t) or '') == 'sound::transport::Transport::new']
         okn = len(tn) == 1 and 'start_position' in tn[0][1] and SEEK + '(' not in tn[0][1] and '::seek(' not in tn[0][1]
+        # ... untouched: nothing in `new` moves the playhead afterwards (a start position past the loop end is played once
+        # and wraps on the next step, exactly as a static sound does), and the decoder is sought to that same position
+        moved = [pretty_place(nb, s2['lhs']) for _, _, s2 in nb.stmts() if s2['k'] == 'assign' and s2['lhs']['p']
+                 and pretty_place(nb, s2['lhs']).endswith('.position') and 'ransport' in (nb.locals[s2['lhs']['l']].get('ty') or '')]
+        sk = [_d2(nb, t['args'][1], depth=8, at=bb) for bb, t in nb.calls() if (callee_path(t) or '') == SEEK]
+        R.check(not moved and len(sk) == 1 and 'start_position' in sk[0] and 'ransport' not in sk[0], 'B.C18.seek', 'new:start-untouched',
+                'DecodeScheduler::new moves the new transport\'s position (%s) / seeks the decoder to %s: the first frame played is not the one at the requested start position'
+                % (moved, [x[:80] for x in sk]), detail={'seek': [x[:100] for x in sk]}, where=nb.file)
         R.check(okn, 'B.C18.seek', 'new:transport-start', 'a new streaming sound\'s transport starts at %s, not at the requested start position'
                 % [d[:100] for _, d in tn], detail={'start': tn[0][1][:120] if tn else None}, where=nb.file)
     # a relative seek is relative to what is being HEARD: the decoder thread's own transport runs up to a ring buffer ahead
